@@ -133,6 +133,7 @@ type interpreter struct {
 	trace              bool
 	funcsSeen          map[*ssa.Function]bool
 	curG               *gstate
+	sharedGraph        *graph // objects reachable from non-private globals (never copied)
 }
 
 // sideTables hold per-path state of modelled runtime objects.
